@@ -134,13 +134,46 @@ def skeletons(tier):
     return out
 
 
+def scope_skeletons():
+    """The first iterable belongs to the enclosing scope: it may mention the loop variable's own name (the enclosing
+    binding is meant) and, in a class body, a class variable -- in the native-comprehension and in the
+    generator-function strategy alike (single-clause forms included)."""
+    out = []
+    for form in ("lfor", "sfor", "dfor", "gfor"):
+        for nclauses in (1, 2):
+            for stmt in (False, True):
+                for place in ("module-self", "fn-self", "class-var"):
+                    c = Ctx()
+                    src = "i0" if place != "class-var" else "cv"
+                    clauses = ["i0", ("E", c.sites(), src)]
+                    if nclauses == 2:
+                        clauses += [(":", "if"), ("E", c.sites(), ("<", "i0", c.leaf("x")))]
+                    val = wrap(c, ("E", c.sites(), "i0"), stmt)
+                    if form == "dfor":
+                        fin = [("E", c.sites(), "i0"), val]
+                    else:
+                        fin = [val]
+                    sk = (form,) + tuple(clauses) + tuple(fin)
+                    if form == "gfor":
+                        sk = ("list", sk)
+                    xs = c.leaf("xs")
+                    nm = "%s:%s/%d-clause/%s" % (place, form, nclauses, "stmt" if stmt else "expr")
+                    if place == "module-self":
+                        out.append((nm, ("do", ("setv", "i0", xs), ("setv", "r", sk), ("#(", "r", "i0"))))
+                    elif place == "fn-self":
+                        out.append((nm, ("call", ("fn", ("[",), ("setv", "i0", xs), ("setv", "r", sk), ("#(", "r", "i0")))))
+                    else:
+                        out.append((nm, ("do", ("defclass", "K", ("[",), ("setv", "cv", xs), ("setv", "r", sk)), ("#(", "K.r", ("hasattr", "K", ("str", "i0"))))))
+    return out
+
+
 def spec(tier, seed):
     obs = []
-    for n, (name, sk) in enumerate(skeletons(tier)):
+    for n, (name, sk) in enumerate(skeletons(tier) + scope_skeletons()):
         fn = "h%d" % n
         info = skel.scan(sk)
         extra = []
-        if name.startswith("class:") or "sfor/" in name or "dfor/" in name:
+        if name.startswith("class") or "sfor/" in name or "dfor/" in name or ":sfor" in name or ":dfor" in name:
             # set/dict elements are hashed and class bodies copy namespaces: CrossHair realises the list elements, so box them
             extra = ["all(-1 <= e <= 1 for e in xs%d)" % i for i in sorted(info["xs"])]
         src, text = skel.harness_src(fn, sk, sup=False, xs_len=2 if (tier == "quick" or extra) else 3, extra_pre=extra,
@@ -162,7 +195,7 @@ def spec(tier, seed):
         ],
         "bounds": "clause lists of length 1..%d starting with an iteration clause, over {iteration, :if, :setv, :do}; at most one clause or the final form made statement-producing (every position); "
                   "final forms: plain, setx (leaks), #* (lfor/sfor/gfor), key/value, value-with-statements and #** (dfor); for with else and break; module level, and sampled "
-                  "function and class scope with name-visibility probes; iterables symbolic lists (len<=%d), :if thresholds and break values symbolic ints"
+                  "function and class scope with name-visibility probes; 48 skeletons whose first iterable mentions the loop variable's own name (module, function) or a class variable, one or two clauses, both strategies; iterables symbolic lists (len<=%d), :if thresholds and break values symbolic ints"
                   % (2 if tier == "quick" else 3, 2 if tier == "quick" else 3),
         "outside": "clause lists longer than stated (property text: 5); :async clauses; destructuring targets; more than one statement-producing clause",
         "stubs": ["crosshair.util.getsourcelines wrapper for .hy-defined callees", "crosshair.fnutil.getclosurevars wrapper (empty closure cells)"],
